@@ -155,7 +155,8 @@ unicode_wstfont2(unsigned int c, int italic)
 	} else /* 0xF000 ... 0xF7FF reserved for DRCS */
 		return invalid;
 
-	if (italic)
+	/* The slanted set covers glyph rows 0 ... 16 only. */
+	if (italic && c < 17 * 32)
 		return c + 31 * 32;
 	else
 		return c;
